@@ -132,7 +132,9 @@ def expect_eml(t, level=0):
 
 def got_eml(e, level=0):
     attrs = {k: v for k, v in e.attrib.items() if not (level == 0 and k.startswith("{"))}
-    return {"name": etree.QName(e).localname, "attrs": attrs, "text": strip(e.text), "kids": [got_eml(c, level + 1) for c in e if isinstance(c.tag, str)]}
+    # only the document element may be lifted into the EML namespace (eml -> eml:eml); every other element keeps its plain name
+    return {"name": etree.QName(e).localname if level == 0 else e.tag, "attrs": attrs, "text": strip(e.text),
+            "kids": [got_eml(c, level + 1) for c in e if isinstance(c.tag, str)]}
 
 
 def run(ctx):
@@ -145,6 +147,11 @@ def run(ctx):
         t = legal_tree(rng, maxdepth=rng.choice([0, 1, 2, 3]), eml=eml)
         if eml and rng.random() < 0.3:
             t[1] = "eml"
+        if eml and rng.random() < 0.25:
+            # an element that merely happens to be called eml somewhere below the root
+            inner = [x for pth, x in gen.nodes_of(t) if pth]
+            if inner:
+                rng.choice(inner)[1] = "eml"
         impl.reset()
         root = impl.build(t)
         orig = impl.snapshot(root)
